@@ -325,7 +325,8 @@ def _safe_on_path(p, i, gated):
     if any('_eval_cache_unsafe' in t and ' in ' in t and pol is False for t, pol in facts):
         return True, 'strict and the path is not recorded as unsafe'
     if any((e.kind == 'call' and (e.callee or '').startswith(('self._eval_cache_unsafe.', 'self._eval_ctx._eval_cache_unsafe.'))) or
-           (e.kind == 'subscr' and (e.callee or '').endswith('._eval_cache_unsafe')) for e in p.events[:i]) or \
+           (e.kind == 'subscr' and (e.callee or '').endswith('._eval_cache_unsafe')) or
+           (e.kind == 'iter' and (e.callee or '') in ('self._eval_cache_unsafe', 'self._eval_ctx._eval_cache_unsafe')) for e in p.events[:i]) or \
             any('each(self._eval_cache_unsafe' in t for t, _ in facts):
         return True, 'strict and the record of unsafe paths is scanned before the hand-out (what the scan rejects is decided by R4c)'
     REC = ('self._eval_cache_unsafe', 'self._eval_ctx._eval_cache_unsafe')
